@@ -1,0 +1,42 @@
+//go:build verif
+
+// Machine-checked specifications for package config (comment-only file; read
+// by /verif/bin/hopvc).
+
+package config
+
+// hostMatches(p, h): pattern p glob-matches host h (pkg/glob.Glob, whose own contract - total, equal to the
+// recursive glob specification - is proved under C20); here it is an abstract predicate of the two strings.
+//@ spec hostMatches(p Bytes, h Bytes) bool
+//@ func MatchHostPattern(pattern string, input string) (r bool)
+//@   assume wrapper of glob.Glob (C20 proves Glob against its specification); abstracted to a predicate of the two strings
+//@   pure
+//@   ensures r <==> hostMatches(bytes(pattern), bytes(input))
+
+// mergeTimes[h] counts how many times host block h was merged into a result (bookkeeping of MergeWith calls).
+//@ ghost mergeTimes map[Ref]int
+//@ func (hc *HostConfigOptional) MergeWith(other *HostConfigOptional)
+//@   assume the ghost counter is bookkeeping by definition; MergeWith writes only its receiver (its body is not verified against this frame)
+//@   modifies *hc, mergeTimes
+//@   ensures mergeTimes == update(old(mergeTimes), ref(other), old(mergeTimes)[ref(other)] + 1)
+
+// MatchHost merges every host block one of whose patterns matches the host - exactly once - and merges no block
+// more than once.  (That a block NONE of whose patterns matches is not merged needs a quantifier alternation the
+// solvers did not discharge; it is not claimed.)
+//@ func (c *ClientConfig) MatchHost(inputHost string) (result *HostConfigOptional)
+//@   property C20
+//@   ensures forall i int, p int :: 0 <= i && i < len(c.Hosts) && 0 <= p && p < len(c.Hosts[i].Patterns) && hostMatches(bytes(c.Hosts[i].Patterns[p]), bytes(inputHost))
+//@       ==> mergeTimes[ref(&c.Hosts[i])] == old(mergeTimes)[ref(&c.Hosts[i])] + 1
+//@   ensures forall i int :: 0 <= i && i < len(c.Hosts) ==> mergeTimes[ref(&c.Hosts[i])] == old(mergeTimes)[ref(&c.Hosts[i])] || mergeTimes[ref(&c.Hosts[i])] == old(mergeTimes)[ref(&c.Hosts[i])] + 1
+//@   loop 1
+//@     invariant forall k int, p int :: 0 <= k && k <= rangeindex && 0 <= p && p < len(c.Hosts[k].Patterns) && hostMatches(bytes(c.Hosts[k].Patterns[p]), bytes(inputHost))
+//@       ==> mergeTimes[ref(&c.Hosts[k])] == old(mergeTimes)[ref(&c.Hosts[k])] + 1
+//@     invariant forall k int :: 0 <= k && k <= rangeindex ==> mergeTimes[ref(&c.Hosts[k])] == old(mergeTimes)[ref(&c.Hosts[k])] || mergeTimes[ref(&c.Hosts[k])] == old(mergeTimes)[ref(&c.Hosts[k])] + 1
+//@     invariant forall k int :: rangeindex < k && k < len(c.Hosts) ==> mergeTimes[ref(&c.Hosts[k])] == old(mergeTimes)[ref(&c.Hosts[k])]
+//@   loop 2
+//@     invariant 0 <= i && i < len(c.Hosts)
+//@     invariant forall k int, p int :: 0 <= k && k < i && 0 <= p && p < len(c.Hosts[k].Patterns) && hostMatches(bytes(c.Hosts[k].Patterns[p]), bytes(inputHost))
+//@       ==> mergeTimes[ref(&c.Hosts[k])] == old(mergeTimes)[ref(&c.Hosts[k])] + 1
+//@     invariant forall k int :: 0 <= k && k < i ==> mergeTimes[ref(&c.Hosts[k])] == old(mergeTimes)[ref(&c.Hosts[k])] || mergeTimes[ref(&c.Hosts[k])] == old(mergeTimes)[ref(&c.Hosts[k])] + 1
+//@     invariant forall k int :: i <= k && k < len(c.Hosts) ==> mergeTimes[ref(&c.Hosts[k])] == old(mergeTimes)[ref(&c.Hosts[k])]
+//@     invariant forall p int :: 0 <= p && p <= rangeindex ==> !hostMatches(bytes(c.Hosts[i].Patterns[p]), bytes(inputHost))
